@@ -97,6 +97,11 @@ func (w *World) checkBlockClosure(rec WriteRec) {
 
 // reloadPointer loads a pointer from the store image holding the first k writes.
 func (w *World) reloadPointer(p ptrRec, k int, why string) {
+	if w.R.Choose("abandoned-load-before", 6) == 0 {
+		// an earlier recovery attempt that its caller gave up on must not leave anything behind that
+		// changes what a pointer loads to
+		w.abortedLoad()
+	}
 	view := w.St.View(k)
 	var l *ipfslog.IPFSLog
 	var err error
